@@ -21,7 +21,7 @@ KV = [E.KMIPVersion.KMIP_1_0, E.KMIPVersion.KMIP_1_1, E.KMIPVersion.KMIP_1_2, E.
 
 def plan(tier):
     return {
-        'level': 'exploration', 'shards': 16, 'budget_s': 80 if tier == 'quick' else 800,
+        'level': 'exploration', 'shards': 16, 'budget_s': 120 if tier == 'quick' else 800,
         'rule': 'every ProxyKmipClient operation with generated arguments under KMIP 1.0-2.0 over an in-process '
                 'transport (real KMIPProtocol, real KmipSession and engine, random recv chunking); the wire response '
                 'is decoded independently and compared with what the client returned or raised; a tampering '
@@ -36,7 +36,7 @@ def plan(tier):
 
 
 def cases(tier, seed):
-    n = 48 if tier == 'quick' else 640
+    n = 160 if tier == 'quick' else 1280
     return [{'run': i} for i in range(n)]
 
 
